@@ -9,6 +9,7 @@ import (
 	"runtime/debug"
 	"sync"
 	"sync/atomic"
+	"syscall"
 	"time"
 
 	"github.com/pgavlin/dawn/internal/verifhook"
@@ -64,6 +65,9 @@ func MaybeChild() {
 		return
 	}
 	debug.SetMaxStack(64 << 20) // a runaway recursion fails fast (fatal error: stack overflow)
+	// ... and so does a runaway allocation: 16 GiB of address space, after which the runtime dies with
+	// "out of memory" instead of eating the machine (nothing limits memory in the sandbox)
+	syscall.Setrlimit(syscall.RLIMIT_AS, &syscall.Rlimit{Cur: 16 << 30, Max: 16 << 30})
 	var req childReq
 	if err := json.NewDecoder(os.Stdin).Decode(&req); err != nil {
 		fmt.Fprintln(os.Stderr, "child: bad request:", err)
@@ -94,6 +98,7 @@ func (s *Sim) ChildBuild(req BuildReq) BuildResult {
 	}
 	cmd := exec.Command(bin)
 	cmd.Env = append(os.Environ(), "VERIF_CHILD=1", "GOTRACEBACK=single")
+	cmd.SysProcAttr = &syscall.SysProcAttr{Pdeathsig: syscall.SIGKILL} // a child never outlives the harness process
 	cmd.Stdin = bytes.NewReader(in)
 	var stdout, stderr bytes.Buffer
 	cmd.Stdout, cmd.Stderr = &stdout, &stderr
